@@ -5,7 +5,7 @@ Import ListNotations.
 From CV Require Import Driver.Round.
 
 Inductive pres := OK | INVALID | STOP | ERROR | EXC.     (* EXC: transform raised, result stays None *)
-Inductive tout := Exit (z:Z) | Timeout.
+Inductive tout := Exit (z:Z) | Timeout | NoRun.   (* NoRun: the test process could not be started *)
 
 Definition pres_eqb (a b:pres) : bool :=
   match a, b with OK,OK | INVALID,INVALID | STOP,STOP | ERROR,ERROR | EXC,EXC => true | _,_ => false end.
@@ -16,7 +16,8 @@ Record cand := mkc {
   c_exit : Z;            (* exit status of the interestingness test (meaningful when c_res = OK) *)
   c_timeout : bool;      (* the future raised TimeoutError *)
   c_changed : bool;      (* candidate file differs from the current test case (filecmp) *)
-  c_improve : Z          (* base_size - size of the candidate *)
+  c_improve : Z;         (* base_size - size of the candidate *)
+  c_norun : bool         (* the test could not be run at all: exitcode stays None (OSError in the worker) *)
 }.
 
 Record cfg := mkcfg {
@@ -41,7 +42,7 @@ Record xst := mkx {
   x_greported : bool          (* giveup_reported *)
 }.
 
-Definition success (c:cand) : bool := pres_eqb (c_res c) OK && Z.eqb (c_exit c) 0.
+Definition success (c:cand) : bool := pres_eqb (c_res c) OK && Z.eqb (c_exit c) 0 && negb (c_norun c).
 
 (* get_extra_dir(prefix, max): first free index in 0..max, None when 0..max all exist *)
 Definition free_slot (existing max:nat) : bool := existing <=? max.
@@ -87,7 +88,7 @@ Definition check_pass_result (g:cfg) (c:cand) (x:xst) (i:nat) : outcome * xst :=
     match c_res c with
     | OK =>
       let x2 := match g_also g with
-                | Some a => if Z.eqb (c_exit c) a then save_extra g x1 else x1
+                | Some a => if negb (c_norun c) && Z.eqb (c_exit c) a then save_extra g x1 else x1
                 | None => x1 end in
       giveup_tail g x2 i
     | STOP => (QUIT, x1)
@@ -108,7 +109,7 @@ Definition on_timeout (g:cfg) (x:xst) (_:nat) : xst * bool :=
 Section Inst.
 Variable g : cfg.
 Variable cands : list cand.
-Definition cand_at (i:nat) : cand := nth i cands (mkc EXC 0 false false 0).
+Definition cand_at (i:nat) : cand := nth i cands (mkc EXC 0 false false 0 false).
 Definition chk (x:xst) (i:nat) := check_pass_result g (cand_at i) x i.
 Definition tmo (i:nat) := c_timeout (cand_at i).
 
